@@ -96,7 +96,8 @@ def placements(sbs):
     add("below-symlink", "./lnk_dir/sub/out", [("proj/lnk_dir", "../elsewhere")], {}, [], None, False)
     add("existing-file", "./doc_file", [], {"proj/doc_file": "i am a file"}, [], None, False)
     add("empty-existing-dir", "./doc", [], {}, ["proj/doc"], None, False)
-    add("below-src", "./src/doc", [], {}, [], None, False)
+    add("below-src", "./src/doc", [], {"proj/src/doc/src/old.f90": "module leftover\nend module\n",
+                                       "proj/src/doc/index.html": "<stale>"}, [], None, False)
     add("sibling-of-src-prefix-name", "./src2", [], {}, [], None, False)      # 'src' is a string prefix of 'src2'
     # ---- equal to / above a source directory: must refuse before deleting anything
     add("REFUSE-equal-src", "./src", [], {}, [], None, True)
